@@ -21,7 +21,9 @@ def run(tier):
     work = scratch("c08")
     cfgs = [dict(nf=3, mb=1, ids=["a", "c", "z"], backlogs=(3, 4), flagsets=[[]], tails=(2, 3)),
             dict(nf=2, mb=2, ids=["a", "c", "b"], backlogs=(3,), flagsets=[[], ["DONT_DEDUP"]], tails=(3,)),
-            dict(nf=4, mb=0, ids=["a", "c"], backlogs=(3, 5), flagsets=[[], ["DONT_DEDUP"]], tails=(2, 3))]
+            dict(nf=4, mb=0, ids=["a", "c"], backlogs=(3, 5), flagsets=[[], ["DONT_DEDUP"]], tails=(2, 3)),
+            # files that END IN A SHORT DATA BLOCK (no fragment): equal leading block, colliding last blocks of one size
+            dict(nf=3, mb=1, ids=["a", "c"], backlogs=(3,), flagsets=[["DONT_FRAGMENT"], []], tails=(2,))]
     if tier != "quick":
         cfgs += [dict(nf=3, mb=2, ids=["a", "c"], backlogs=(3, 4), flagsets=[[]], tails=(3,)),
                  dict(nf=5, mb=0, ids=["a", "c"], backlogs=(3,), flagsets=[[]], tails=(2, 3)),
@@ -39,7 +41,7 @@ def run(tier):
     devres = {}
     for dev in DEVS:
         found = False
-        for c in cfgs[:3]:
+        for c in cfgs[:4]:
             cfg = work + "/dev.cfg"
             bpbind.cfg_for(cfg, dev=dev, invariants=PROPS, **c)
             r = run_tlc("BlockProc", cfg, workers=16, timeout=1200, heap="12g")
@@ -61,7 +63,7 @@ def run(tier):
     rng = random.Random(SEED)
     total = 0
     binp = bpbind.build_harness(work, "hash0")
-    for pi, c in enumerate(cfgs[:3] if tier == "quick" else cfgs):
+    for pi, c in enumerate(cfgs[:4] if tier == "quick" else cfgs):
         cfg = work + "/emit%d.cfg" % pi
         bpbind.cfg_for(cfg, emit=True, invariants=PROPS, **c)
         r = run_tlc("BlockProc", cfg, workers=16, timeout=3000, heap="20g")
@@ -173,8 +175,8 @@ def run(tier):
                 s.add_file("/kdup_first", s.files["k00"])
                 s.add_file("/kdup_last", s.files["k23"])
                 out = s.dir + "/img.sqfs"
-                for j in (1, 4):
-                    rc, o, e = sh([packer + "/gensquashfs", "-q", "-f", "-c", comp, "-b", str(bs), "-j", str(j), "-F", s.packfile(), out], timeout=120)
+                for j, extra in ((1, []), (4, []), (2, ["-T"])):             # -T: every file ends in a short data block instead of a fragment
+                    rc, o, e = sh([packer + "/gensquashfs", "-q", "-f", "-c", comp, "-b", str(bs), "-j", str(j)] + extra + ["-F", s.packfile(), out], timeout=120)
                     runs += 1
                     if rc != 0:
                         raise RuntimeError("gensquashfs(hash%d) failed: %s" % (bits, e[-300:]))
@@ -187,8 +189,8 @@ def run(tier):
                         if n is None or n["sha"] != vlib.sha(data) or rc2 != 0 or o2 != data:
                             keep = work + "/collide_%d_%s.sqfs" % (bits, comp)
                             shutil.copy(out, keep)
-                            rep.violation("dedup-data-changed", "%d-bit checksum, %s, -b %d, -j %d: file %s reads back with different bytes"
-                                          % (bits, comp, bs, j, name), artefact=keep, data={"file": name, "bits": bits})
+                            rep.violation("dedup-data-changed", "%d-bit checksum, %s, -b %d, -j %d %s: file %s reads back with different bytes"
+                                          % (bits, comp, bs, j, " ".join(extra), name), artefact=keep, data={"file": name, "bits": bits, "options": extra})
                             break
                     ia, ib, i0 = (img.by_num[t[x]["inum"]] for x in (b"dupA", b"dupB", b"f00"))
                     if len({(x["start"], x["frag_idx"], x["frag_off"], tuple(w[2] for w in x["blocks"])) for x in (ia, ib, i0)}) != 1:
